@@ -157,6 +157,7 @@ def run_case(case):
             for fmt in ("t", "y"):
                 path = os.path.join(tmp, "same.tar" if fmt == "t" else "same.yaml")
                 try:
+                    first = None
                     for obj in (orig, sib):
                         if fmt == "t":
                             obj.dump_tar(path)
@@ -164,12 +165,16 @@ def run_case(case):
                         else:
                             obj.dump_yaml_to_file(path)
                             back = Output.load_yaml_from_file(path)
+                        first = first if first is not None else back
                 except Exception as e:
                     viol.append(dict(sig=f"roundtrip-raises|{'tar' if fmt=='t' else 'yaml'}-file|{run.exc_sig(e)}", what=f"dump/load through the file {os.path.basename(path)} raised {type(e).__name__}: {e}"))
                     continue
                 for kind_, msg in compare(sib, back, f"second output written over {os.path.basename(path)}"):
                     viol.append(dict(sig=f"roundtrip-history|{'tar' if fmt=='t' else 'yaml'}|{kind_}", what=msg + " (the file was overwritten with a different output of the same shape after a first dump/load cycle)"))
-                compared += sum(len(v) for k, v in orig.items() if isinstance(v, list) and k in obsd) + 6
+                # ... and an object loaded earlier stays what it was, whatever has been loaded since (state kept on the class, shared buffers)
+                for kind_, msg in compare(orig, first, f"first object loaded from {os.path.basename(path)}, after a second load"):
+                    viol.append(dict(sig=f"roundtrip-history|{'tar' if fmt=='t' else 'yaml'}|earlier-object|{kind_}", what=msg + " (an object loaded earlier changed when another archive was loaded)"))
+                compared += 2 * sum(len(v) for k, v in orig.items() if isinstance(v, list) and k in obsd) + 12
             classes.add("overwrite")
     finally:
         shutil.rmtree(tmp, ignore_errors=True)
